@@ -904,6 +904,41 @@ fn sweep_errors(ctx: &Ctx) -> Tally {
 
 const DAY28: i64 = 28 * 86400;
 
+/// all search sweeps; `light` = reduced alphabets (used when the sweeps only serve as the C14 monitor)
+pub fn run_sweeps(ctx: &Ctx, tabs: &Tables, thorough: bool, light: bool) -> Tally {
+    let prop = ctx.prop;
+    let mut total = Tally::default();
+    // 1. tiny world
+    total = total.merge(sweep_tiny(ctx, if light { 3 } else { 4 }, 0, &[vec![]], &TINY_OFFS, "tiny_world"));
+    // 5. leap zones: tiny world shifted behind a first leap record, second record placed among the transitions
+    {
+        let base = DAY28 + 1000;
+        let mut variants: Vec<Vec<(i64, i32)>> = vec![];
+        for c0 in [1i32, -1] {
+            for step in [1i32, -1] {
+                for pos in [99i64, 100, 101, 102, 103, 104, 105, 108, 130] {
+                    variants.push(vec![(5, c0), (base + pos, c0 + step)]);
+                }
+            }
+            variants.push(vec![(base + 101, c0)]);
+        }
+        let variants = if thorough || prop == Prop::C17 && false { variants } else { variants.into_iter().step_by(if light { 6 } else { 1 }).collect() };
+        total = total.merge(sweep_tiny(ctx, if thorough { 3 } else { 2 }, base, &variants, &[-3, 0, 4], "leap_tiny_world"));
+    }
+    // 2. real scale
+    total = total.merge(sweep_real_scale(ctx, thorough));
+    // 3. rule only
+    total = total.merge(sweep_rule_only(ctx, tabs, if thorough { 120 } else if light { 6 } else { 30 }, false, "rule_only"));
+    // 3b. non-interleaving accepted rules (keeps KF2 observable; any other failure mode is a violation)
+    total = total.merge(sweep_rule_only(ctx, tabs, if thorough { 60 } else { 10 }, true, "rule_only_non_interleaving"));
+    // 4. junction
+    total = total.merge(sweep_junction(ctx, tabs, thorough));
+    // errors
+    total = total.merge(sweep_errors(ctx));
+
+    total
+}
+
 pub fn run(args: &Args) -> i32 {
     let prop = match args.prop.as_str() {
         "C05" => Prop::C05,
@@ -920,35 +955,7 @@ pub fn run(args: &Args) -> i32 {
     let tabs = Tables::build(&cyc);
     let thorough = args.thorough();
     let ctx = Ctx { cyc: &cyc, rec: &rec, prop, kf1_open: rec.kf_open("KF1"), kf2_open: rec.kf_open("KF2"), kf3_open: rec.kf_open("KF3") };
-    let mut total = Tally::default();
-    let light = prop == Prop::C14; // C14 runs the sweeps as a monitor with reduced alphabets
-    // 1. tiny world
-    total = total.merge(sweep_tiny(&ctx, if light { 3 } else { 4 }, 0, &[vec![]], &TINY_OFFS, "tiny_world"));
-    // 5. leap zones: tiny world shifted behind a first leap record, second record placed among the transitions
-    {
-        let base = DAY28 + 1000;
-        let mut variants: Vec<Vec<(i64, i32)>> = vec![];
-        for c0 in [1i32, -1] {
-            for step in [1i32, -1] {
-                for pos in [99i64, 100, 101, 102, 103, 104, 105, 108, 130] {
-                    variants.push(vec![(5, c0), (base + pos, c0 + step)]);
-                }
-            }
-            variants.push(vec![(base + 101, c0)]);
-        }
-        let variants = if thorough || prop == Prop::C17 && false { variants } else { variants.into_iter().step_by(if light { 6 } else { 1 }).collect() };
-        total = total.merge(sweep_tiny(&ctx, if thorough { 3 } else { 2 }, base, &variants, &[-3, 0, 4], "leap_tiny_world"));
-    }
-    // 2. real scale
-    total = total.merge(sweep_real_scale(&ctx, thorough));
-    // 3. rule only
-    total = total.merge(sweep_rule_only(&ctx, &tabs, if thorough { 120 } else if light { 6 } else { 30 }, false, "rule_only"));
-    // 3b. non-interleaving accepted rules (keeps KF2 observable; any other failure mode is a violation)
-    total = total.merge(sweep_rule_only(&ctx, &tabs, if thorough { 60 } else { 10 }, true, "rule_only_non_interleaving"));
-    // 4. junction
-    total = total.merge(sweep_junction(&ctx, &tabs, thorough));
-    // errors
-    total = total.merge(sweep_errors(&ctx));
+    let mut total = run_sweeps(&ctx, &tabs, thorough, prop == Prop::C14);
 
     kf2_witness(&ctx);
 
